@@ -207,54 +207,103 @@ theorem valueReference_none_not_loaded (A : UModule) (S : List UModule) (n : Str
   rw [valueReference, hlocal]
   simp [modelWithImportedItem_eq, himp, hmod]
 
-/-! ### the fuel of the import chase -/
+/-! ### the hop bound of the import chase -/
 
-/-- more fuel never changes a chase that came back -/
-theorem valueReference_fuel_mono (S : List UModule) (n : String) :
-    ∀ (fuel : Nat) (m : UModule) (r : Option UValueReference),
-      valueReference fuel m S n = .ok r → valueReference (fuel + 1) m S n = .ok r := by
-  intro fuel
-  induction fuel with
-  | zero => intro m r h; simp [valueReference] at h
-  | succ f ih =>
-    intro m r h
-    rw [valueReference] at h ⊢
-    cases hfind : m.valueReferences.find? fun vr => vr.name == n with
-    | some vr => simpa [hfind] using h
-    | none =>
-      simp only [hfind] at h ⊢
-      cases himp : modelWithImportedItem m S n with
-      | none => simpa [himp] using h
-      | some m' =>
-        simp only [himp] at h ⊢
-        exact ih m' r h
-
-theorem valueReference_fuel_le (S : List UModule) (n : String) (m : UModule)
-    (r : Option UValueReference) (f f' : Nat) (hle : f ≤ f')
-    (h : valueReference f m S n = .ok r) : valueReference f' m S n = .ok r := by
-  induction hle with
-  | refl => exact h
-  | step _ ih => exact valueReference_fuel_mono S n _ m r ih
-
-/-- the chase comes back when the imports it follows are acyclic, witnessed by a rank that
-    decreases along every step of the chase -/
-theorem valueReference_of_rank (S : List UModule) (n : String) (rank : UModule → Nat)
-    (hdec : ∀ m m', (m.valueReferences.find? fun vr => vr.name == n) = none →
-      modelWithImportedItem m S n = some m' → rank m' < rank m) :
-    ∀ (k : Nat) (m : UModule), rank m < k → ∃ r, valueReference k m S n = .ok r := by
+/-- **the chase always comes back** — whatever the imports look like (cycles included) -/
+theorem valueReference_total (S : List UModule) (n : String) :
+    ∀ (k : Nat) (m : UModule), ∃ r, valueReference k m S n = .ok r := by
   intro k
   induction k with
-  | zero => intro m h; omega
+  | zero => intro m; exact ⟨none, rfl⟩
   | succ k ih =>
-    intro m hk
+    intro m
     rw [valueReference]
-    cases hfind : m.valueReferences.find? fun vr => vr.name == n with
+    cases m.valueReferences.find? fun vr => vr.name == n with
     | some vr => exact ⟨some vr, rfl⟩
     | none =>
-      cases himp : modelWithImportedItem m S n with
+      cases modelWithImportedItem m S n with
       | none => exact ⟨none, rfl⟩
+      | some m' => exact ih m'
+
+theorem definition_total (S : List UModule) (n : String) :
+    ∀ (k : Nat) (m : UModule), ∃ r, definition k m S n = .ok r := by
+  intro k
+  induction k with
+  | zero => intro m; exact ⟨none, rfl⟩
+  | succ k ih =>
+    intro m
+    rw [definition]
+    cases m.definitions.find? fun d => d.name == n with
+    | some d => exact ⟨some d, rfl⟩
+    | none =>
+      cases modelWithImportedItem m S n with
+      | none => exact ⟨none, rfl⟩
+      | some m' => exact ih m'
+
+/-- a name that neither the module nor any module in scope defines is not found, however the
+    imports are wired — in particular when they form a cycle -/
+theorem valueReference_none_of_undefined (S : List UModule) (n : String)
+    (hS : ∀ m ∈ S, (m.valueReferences.find? fun vr => vr.name == n) = none) :
+    ∀ (k : Nat) (m : UModule), (m.valueReferences.find? fun vr => vr.name == n) = none →
+      valueReference k m S n = .ok none := by
+  intro k
+  induction k with
+  | zero => intro m _; rfl
+  | succ k ih =>
+    intro m hm
+    rw [valueReference, hm]
+    cases himp : modelWithImportedItem m S n with
+    | none => rfl
+    | some m' => exact ih m' (hS m' (modelWithImportedItem_mem m S n m' himp))
+
+theorem definition_none_of_undefined (S : List UModule) (n : String)
+    (hS : ∀ m ∈ S, (m.definitions.find? fun d => d.name == n) = none) :
+    ∀ (k : Nat) (m : UModule), (m.definitions.find? fun d => d.name == n) = none →
+      definition k m S n = .ok none := by
+  intro k
+  induction k with
+  | zero => intro m _; rfl
+  | succ k ih =>
+    intro m hm
+    rw [definition, hm]
+    cases himp : modelWithImportedItem m S n with
+    | none => rfl
+    | some m' => exact ih m' (hS m' (modelWithImportedItem_mem m S n m' himp))
+
+/-- **the bound does not cut an acyclic chase short**: when the imports followed for `n` from
+    the modules in reach are acyclic — witnessed by a rank that decreases along every step of
+    the chase — one more hop changes nothing as soon as the budget exceeds the rank -/
+theorem valueReference_succ_of_rank (A : UModule) (S : List UModule) (n : String)
+    (rank : UModule → Nat)
+    (hdec : ∀ m ∈ A :: S, ∀ m', (m.valueReferences.find? fun vr => vr.name == n) = none →
+      modelWithImportedItem m S n = some m' → rank m' < rank m) :
+    ∀ (k : Nat) (m : UModule), m ∈ A :: S → rank m < k →
+      valueReference (k + 1) m S n = valueReference k m S n := by
+  intro k
+  induction k with
+  | zero => intro m _ h; omega
+  | succ k ih =>
+    intro m hm hk
+    rw [valueReference, valueReference]
+    cases hfind : m.valueReferences.find? fun vr => vr.name == n with
+    | some vr => rfl
+    | none =>
+      cases himp : modelWithImportedItem m S n with
+      | none => rfl
       | some m' =>
-        have := hdec m m' hfind himp
-        exact ih m' (by omega)
+        have := hdec m hm m' hfind himp
+        exact ih m' (List.mem_cons_of_mem _ (modelWithImportedItem_mem m S n m' himp)) (by omega)
+
+theorem valueReference_le_of_rank (A : UModule) (S : List UModule) (n : String)
+    (rank : UModule → Nat)
+    (hdec : ∀ m ∈ A :: S, ∀ m', (m.valueReferences.find? fun vr => vr.name == n) = none →
+      modelWithImportedItem m S n = some m' → rank m' < rank m)
+    (k k' : Nat) (hk : rank A < k) (hle : k ≤ k') :
+    valueReference k' A S n = valueReference k A S n := by
+  induction hle with
+  | refl => rfl
+  | @step j hle' ih =>
+    have hj : k ≤ j := hle'
+    rw [valueReference_succ_of_rank A S n rank hdec j A (by simp) (by omega), ih]
 
 end Asn1Verif.Front.Syn
